@@ -613,6 +613,12 @@ def run_history(ctx, name, data, expected, ops, lay_desc, quirks, model_jobs, sa
         top1, _ = walk(after)
         if good and mdat_payloads(after, top1) != media0:
             ctx.violation("mp4:media-bytes-changed", "the payload of an mdat atom changed", case)
+        if good and op[0] == "delete":
+            # nothing of the tags is left: every ilst atom of the file is empty (a delete that writes a new empty list in
+            # front of the old one reloads as "no tags" and keeps every value in the file)
+            left = [(b"/".join(n.path).decode("latin-1"), n.size) for n, _t in iter_nodes(top1) if n.name == b"ilst" and n.size > n.hl]
+            if left:
+                ctx.violation("mp4:delete-leaves-tag-atoms", "after delete the file still holds a non-empty tag list: %r" % (left[:3],), case)
         # (iii) (on a file that is still a well-formed tree; a broken tree has been reported above)
         k2, o2 = timed(lambda: sess.MP4(io.BytesIO(after)), 20) if good else ("skip", None)
         rkey = "mp4:reload" + "".join(":" + q for q in quirks)
